@@ -198,15 +198,61 @@ func c10(c *Ctx) {
 			if !isV {
 				return
 			}
-			if _, _, ok := stripped(v, "*", true); ok {
-				if testKnown(in.Block(), "*", true, true) && testKnown(in.Block(), "regex:", false, false) {
-					okPre = true
+			if _, guard, ok := stripped(v, "*", true); ok {
+				// the stripped pattern is computed (slice form) or used (Cut / Trim forms) where the pattern is known
+				// to end in '*' and not to be a regex
+				blocks := []*ssa.BasicBlock{in.Block()}
+				if !guard {
+					for _, ref := range referrers(v) {
+						blocks = append(blocks, ref.Block())
+						if ph, isPhi := ref.(*ssa.Phi); isPhi {
+							for i, e := range ph.Edges {
+								if e == v {
+									blocks = append(blocks, ph.Block().Preds[i])
+								}
+							}
+						}
+					}
+				}
+				for _, b := range blocks {
+					if testKnown(b, "*", true, true) && testKnown(b, "regex:", false, false) {
+						okPre = true
+					}
 				}
 			}
 		})
 		r.Check("NewStringMatch:prefix-star", okPre, ns.Pos(), "a trailing '*' (on a non-regex pattern) selects prefix matching and is cut")
 		// the fields are wired to the right locals
-		r.Check("NewStringMatch:fields", strings.Contains(pathOf(lit["prefixMatch"]), "prefix") && strings.Contains(pathOf(lit["regex"]), "compiledRegex") && pathOf(lit["test"]) != "", ns.Pos(), fmt.Sprintf("prefixMatch<-%s regex<-%s test<-%s", pathOf(lit["prefixMatch"]), pathOf(lit["regex"]), pathOf(lit["test"])))
+		derivesFrom := func(v ssa.Value, pred func(ssa.Value) bool) bool {
+			seen := map[ssa.Value]bool{}
+			var walk func(v ssa.Value, d int) bool
+			walk = func(v ssa.Value, d int) bool {
+				if v == nil || d > 8 || seen[v] {
+					return false
+				}
+				seen[v] = true
+				if pred(v) {
+					return true
+				}
+				if ph, ok := v.(*ssa.Phi); ok {
+					for _, e := range ph.Edges {
+						if walk(e, d+1) {
+							return true
+						}
+					}
+				}
+				return false
+			}
+			return walk(v, 0)
+		}
+		okFields := derivesFrom(lit["regex"], func(v ssa.Value) bool {
+			cl, ok := v.(*ssa.Call)
+			return ok && isCall(cl, "regexp.MustCompile", "regexp.Compile")
+		}) && derivesFrom(lit["prefixMatch"], func(v ssa.Value) bool {
+			k, ok := v.(*ssa.Const)
+			return ok && k.Value != nil && k.Value.String() == "true"
+		}) && lit["test"] != nil
+		r.Check("NewStringMatch:fields", okFields, ns.Pos(), fmt.Sprintf("prefixMatch<-%s regex<-%s test<-%s", pathOf(lit["prefixMatch"]), pathOf(lit["regex"]), pathOf(lit["test"])))
 		// MatchAny / MatchAnyMultiple: true iff some element matches, false for empty
 		for _, nm := range []string{"StringMatchList.MatchAny", "StringMatchList.MatchAnyMultiple"} {
 			fn := w.Func("", nm)
@@ -224,6 +270,34 @@ func c10(c *Ctx) {
 						}
 						if k.Value.ExactString() == "false" && strings.Contains(cs, "rangeindex") {
 							okF = true
+						}
+					}
+				}
+			})
+			// the same spelled slices.ContainsFunc(list, func(e) bool { return e.Match(..) / list.MatchAny(e) })
+			eachInstr(fn, func(in ssa.Instruction) {
+				rt, ok := in.(*ssa.Return)
+				if !ok {
+					return
+				}
+				cl, ok := rt.Results[0].(*ssa.Call)
+				if !ok || !strings.HasPrefix(calleeName(cl), "slices.ContainsFunc") {
+					return
+				}
+				var pred *ssa.Function
+				switch f := cl.Call.Args[1].(type) {
+				case *ssa.MakeClosure:
+					pred, _ = f.Fn.(*ssa.Function)
+				case *ssa.Function:
+					pred = f
+				}
+				if pred == nil || len(pred.Blocks) != 1 {
+					return
+				}
+				if pr, ok := pred.Blocks[0].Instrs[len(pred.Blocks[0].Instrs)-1].(*ssa.Return); ok {
+					if mc, ok := pr.Results[0].(*ssa.Call); ok {
+						if cal := staticCallee(mc); cal != nil && (cal.Name() == "Match" || cal.Name() == "MatchAny") {
+							okT, okF = true, true
 						}
 					}
 				}
